@@ -225,6 +225,7 @@ func allScalar(vs []*V) bool {
 // arbitrary.
 func (f *Frame) defaultCall(instr ssa.Instruction, name string, sig *types.Signature, args []*V, st *State) []*V {
 	u := f.u
+	f.havocOutParams(instr, st)
 	if sig.Results().Len() == 0 {
 		u.note("dependency " + name + ": assumed not to panic and not to write robustirc state")
 		return nil
@@ -1111,5 +1112,85 @@ func (f *Frame) anchorsAfterCall(calleeName string, st *State) {
 		}
 		u.oblige(st, "assert-noassume", f.anchor+want+"/"+label, ctx.evalGoal(a.E), "at "+want+": "+a.Src)
 		u.assume(st, ctx.evalBool(a.E))
+	}
+}
+
+// havocOutParams: a dependency that is handed the address of a local variable (json/proto/toml
+// decoders, Sscanf, ...) or a locally made buffer may fill it in: the pointee becomes arbitrary.
+func (f *Frame) havocOutParams(instr ssa.Instruction, st *State) {
+	ci, ok := instr.(ssa.CallInstruction)
+	if !ok {
+		return
+	}
+	u := f.u
+	for _, a := range ci.Common().Args {
+		v := a
+		if mi, ok := v.(*ssa.MakeInterface); ok {
+			v = mi.X
+		}
+		switch x := v.(type) {
+		case *ssa.Alloc:
+			if x.Parent() != f.fn {
+				continue
+			}
+			pv, ok := f.vals[x]
+			if !ok || pv.LV != nil {
+				continue
+			}
+			et := x.Type().(*types.Pointer).Elem()
+			if at, isArr := et.Underlying().(*types.Array); isArr && !isTime(et) {
+				if _, sc := scalarSort(at.Elem()); sc {
+					for _, l := range flatten(at.Elem()) {
+						key := "E:" + typeKey(at.Elem()) + l.Path
+						inner := arrSort(SInt, l.Sort)
+						fresh := u.fresh("out", inner)
+						ref := pv.T
+						u.write(st, key, ref, func(h T) T { return sto(h, ref, fresh) }, arrSort(SInt, inner))
+					}
+				}
+				continue
+			}
+			nv := u.freshVal(st, et, "out!"+x.Name())
+			u.storeObj(st, et, pv.T, nv)
+			u.note("a dependency that receives the address of a local variable may overwrite it (" + describeCall(ci.Common()) + ")")
+		case *ssa.Slice:
+			// a slice of a local array or of a locally made slice: contents may be written
+			sv, ok := f.vals[x]
+			if !ok || sv.Sl == nil {
+				continue
+			}
+			if !localBacking(x.X, f.fn) {
+				continue
+			}
+			f.havocElems(sv, st)
+		case *ssa.MakeSlice:
+			if sv, ok := f.vals[x]; ok && sv.Sl != nil {
+				f.havocElems(sv, st)
+			}
+		}
+	}
+}
+
+func localBacking(v ssa.Value, fn *ssa.Function) bool {
+	switch x := v.(type) {
+	case *ssa.Alloc:
+		return x.Parent() == fn
+	case *ssa.MakeSlice:
+		return x.Parent() == fn
+	case *ssa.Slice:
+		return localBacking(x.X, fn)
+	}
+	return false
+}
+
+func (f *Frame) havocElems(sv *V, st *State) {
+	u := f.u
+	et := sv.Typ.Underlying().(*types.Slice).Elem()
+	for _, l := range flatten(et) {
+		key := "E:" + typeKey(et) + l.Path
+		inner := arrSort(SInt, l.Sort)
+		fresh := u.fresh("out", inner)
+		arr := sv.Sl.Arr
+		u.write(st, key, arr, func(h T) T { return sto(h, arr, fresh) }, arrSort(SInt, inner))
 	}
 }
